@@ -8,6 +8,23 @@ props = [json.loads(l) for l in open(os.path.join(HERE, "properties.jsonl"))]
 
 # id -> (level text, level note, technique)
 CLAIMED = {
+    "C01": (
+        "Hypothesis search over grammar documents x valid configs, token soup, front-matter YAML vocabulary, hostile "
+        "fragments for each documented error path and file-system faults on include / inventory paths, through both "
+        "front ends (docutils publish_doctree; in-process Sphinx read_doc + post-transforms); oracle: no exception "
+        "escapes, a document is returned, faults are reported; escaping exceptions bucketed by call site; bounded search.",
+        "halt_level=5; linkify/gfm_only configurations need linkify-it-py (not importable) and are not generated; "
+        "termination is bounded by a watchdog (60 s, re-run at 600 s).",
+        "Hypothesis grammar + soup + fault injection; crash/termination oracle with call-site bucketing",
+    ),
+    "C05": (
+        "Every sequence of heading levels 1-6 up to length 5/6 (exhaustive) and Hypothesis sequences up to length 40 "
+        "with filler blocks, nested headings in quotes / lists / admonitions and heading-offset includes, against a "
+        "stack-machine reference model (parents, paragraph ownership, warning count and lines, rubric levels, "
+        "structure invariance under deletion of nested headings); bounded search.",
+        "doctitle/sectsubtitle transforms off; match_titles=True directives (Sphinx 'only') not generated.",
+        "exhaustive level sequences + Hypothesis; reference-model (stack machine) + metamorphic (delete nested headings) oracles",
+    ),
     "C07": (
         "Exhaustive enumeration of all strings up to length 5 (quick) / 6 (thorough) over a 14-character "
         "YAML-significant alphabet, plus Hypothesis grammar-generated and mutated option blocks and (thorough) "
